@@ -28,6 +28,38 @@ impl InstructionGenerator {
         pos: Position,
     ) {
         let (name, args) = built_in_sub_call.into();
+        // READ and INPUT assign their targets one after the other, so a target can depend
+        // on an earlier one (`READ I%, A(I%)` stores into the element the new I% selects):
+        // one call per target, each with the file number arguments of INPUT repeated.
+        let leading_args = match name {
+            BuiltInSub::Read => Some(0),
+            BuiltInSub::Input => match args.first().map(|arg| &arg.element) {
+                Some(Expression::IntegerLiteral(1)) => Some(2),
+                _ => Some(1),
+            },
+            _ => None,
+        };
+        if let Some(leading_args) = leading_args
+            && args.len() > leading_args + 1
+        {
+            let mut args = args;
+            let targets = args.split_off(leading_args);
+            for target in targets {
+                let mut single_target_args = args.clone();
+                single_target_args.push(target);
+                self.generate_one_built_in_sub_call_instructions(name, single_target_args, pos);
+            }
+        } else {
+            self.generate_one_built_in_sub_call_instructions(name, args, pos);
+        }
+    }
+
+    fn generate_one_built_in_sub_call_instructions(
+        &mut self,
+        name: BuiltInSub,
+        args: Expressions,
+        pos: Position,
+    ) {
         let args = self.freeze_by_ref_arg_subscripts(args);
         self.generate_push_unnamed_args_instructions(&args, pos);
         self.push(Instruction::PushStack, pos);
